@@ -111,6 +111,12 @@ CHECKS = {
          'for one pattern, N/X at each position, two-pattern sets, all permutations of the signal groups, three cell-name styles, launch-on-capture pattern sets with and without clock pulses; '
          'tests(), responses() and tests_loc() compared element by element with arrays built from the generator AST and a reference next-state evaluation',
          'trusted: STIL renderer and expected-array builder in checks/c18.py; reference graph evaluator', 'DESIGN.md section 4 C18'),
+
+ 'C20': ('exploration', 'bounded enumeration of DEF ASTs vs. attribute-by-attribute comparison',
+         'every drop of <= 2 sections, every VIAS option subset of size <= 2 (+all), all component orientations, every pin option subset, and every routing item sequence up to length 3 (4 in thorough) '
+         'over points with number/* coordinates, vias, oriented vias and via arrays with n, m in 1..3, in one or two wires per net, for special and regular nets, plus unrouted nets and comments; '
+         'all extracted attributes, resolved via positions and per-layer wire listings compared with the AST',
+         'trusted: DEF renderer and resolver in checks/c20.py; grammar-defined subset (non-negative coordinates)', 'DESIGN.md section 4 C20'),
 }
 
 NOT_YET = 'check under construction in this session (see DESIGN.md build order); will be claimed once its exhaustive check exists'
